@@ -15,9 +15,10 @@ from pyvc.api import *
 from pyvc.api import PROTOCOLS
 from pyvc.fmap import MapOf, xcheck_intmap
 from pyvc.values import cur, mk_bool, mk_int
+from pyvc.seqs import View
 from contracts.proto_widget import *
 from contracts.C08_focus import CSIZE, GRS_RESULT, PI, PILE, PINL, item_at, n_items
-from contracts.C19_containers import child_focus, pile_wf
+from contracts.C19_containers import child_focus, pile_at, pile_wf, psum_of, reads_only, register_per_item
 from contracts.C01_packs import BOX, FIXED, FLOW, ST, SX, child_index, pile_flags, pile_strict, pile_unsupported, sz_stays, sz_unfold, _setup_child
 
 from urwid.widget import pile as _pile
@@ -457,13 +458,50 @@ def pile_reports_fixed(p):
     return both(n > 0, ST(n) == 0, SX(n))
 
 
-@contract(PI + "Pile._get_fixed_rows_sizes", property=("C01", "C19"), inline=PINL, replayable=False, local_maps=PILE_FIXED_LOCALS, setup=_setup_child)
+def _geometry_at_call_site(old, s, a, result):
+    """The natural-size geometry as a caller sees it: the pile's width `mw` and the item `kw` that has it are existential
+    (fresh constants, kept in the ghost state as `pf_geo`); the per-item clauses are stated for the caller's arbitrary
+    child and registered for instantiation at other indices (`pile_at`)."""
+    st = cur()
+    n = n_items(old)
+    det = st.ghost.get("det_terms")
+    if det:
+        # a deterministic function's geometry: the pile's width and the item that has it are functions of the same terms
+        sorts = [t.sort() for t in det]
+        mw = mk_int(z3.Function("pilefx$width/" + ".".join(str(x)[0] for x in sorts), *sorts, z3.IntSort())(*det))
+        kw = mk_int(z3.Function("pilefx$widest/" + ".".join(str(x)[0] for x in sorts), *sorts, z3.IntSort())(*det))
+    else:
+        mw, kw = st.fresh_int("pile_width"), st.fresh_int("widest_item")
+    st.ghost["pf_geo"] = View(dict(mw=mw, kw=kw, result=result, focus=a.focus))
+
+    def at(x):
+        return [(lab, implies(n > 0, f)) for lab, f in fixed_geometry_clauses(old, a.focus, result, mw, kw, x)]
+
+    yield from at(child_index())
+    yield "empty-pile-has-no-geometry", implies(n == 0, both(*[Q.seq_len(t) == 0 for t in result]))
+    yield "frame", both(s._contents._focus == old._contents._focus, n_items(s) == n)
+    register_per_item(n, lambda x: both(*[f for _lab, f in at(x)]))
+
+
+def _geometry_raise_clause(old, s, a, exc):
+    # FIXED reported by sizing()  =>  the natural size can be computed
+    yield "only-for-a-pile-that-does-not-report-fixed", neg(pile_reports_fixed(old))
+
+
+@contract(PI + "Pile._get_fixed_rows_sizes", property=("C01", "C19"), inline=PINL, replayable=False, local_maps=PILE_FIXED_LOCALS, setup=_setup_child,
+          deterministic=True, deterministic_outcome=True)
 class pile_fixed_sizes:
+    """The geometry of a Pile at its natural size (widths, heights, size arguments -- one per item), from the real five
+    loops.  PileError only for a Pile that does not report FIXED."""
+
     self_shape = PILE
     params = dict(focus=Bool)
     result = GRS_RESULT
     raises = (PileError,)
-    static_checks = [lambda: xcheck_intmap()]
+    deterministic_reads = ("_contents",)
+    static_checks = [lambda: xcheck_intmap(rounds=24), lambda: reads_only(PI + "Pile._get_fixed_rows_sizes", {"contents", "focus"})]
+    ensures_callee = staticmethod(_geometry_at_call_site)
+    on_raise_callee = staticmethod(_geometry_raise_clause)
 
     def requires(s, a):
         return pile_wf(s)
@@ -494,3 +532,145 @@ class pile_fixed_sizes:
         0: Loop(invariant=_loop0, shapes=dict(flow=FLOWLIST, box=ListOf(Int), weights=ListOf(Int))),
         1: Loop(invariant=_loop1), 2: Loop(invariant=_loop2), 3: Loop(invariant=_loop3), 4: Loop(invariant=_loop4),
     }
+
+
+# ================================================================================ Pile.get_rows_sizes(()) / pack / render(())
+
+GRS_KEY = PI + "Pile.get_rows_sizes"
+
+
+@contract(GRS_KEY, property=("C01", "C19"), alias="fixed", inline=PINL, replayable=False, setup=_setup_child, deterministic=True, deterministic_outcome=True)
+class pile_grs_fixed:
+    """get_rows_sizes((), focus): the natural-size geometry (the real body: the dispatch to _get_fixed_rows_sizes).
+    (Sizes (maxcol,) / (maxcol, maxrow): contracts/C09_pile.py: pile_grs.)"""
+
+    self_shape = PILE
+    params = dict(size=Tup(), focus=Bool)
+    result = GRS_RESULT
+    raises = (PileError,)
+    deterministic_reads = ("_contents",)
+    ensures_callee = staticmethod(_geometry_at_call_site)
+    on_raise_callee = staticmethod(_geometry_raise_clause)
+
+    def requires(s, a):
+        return pile_wf(s)
+
+    def ensures(old, s, a, result):
+        g = cur().ghost["pf_geo"]  # (left by the callee's contract on this path)
+        n = n_items(old)
+        for lab, f in fixed_geometry_clauses(old, a.focus, result, g.mw, g.kw, child_index()):
+            yield lab, implies(n > 0, f)
+        yield "empty-pile-has-no-geometry", implies(n == 0, both(*[Q.seq_len(t) == 0 for t in result]))
+        yield "frame", both(s._contents._focus == old._contents._focus, n_items(s) == n)
+
+    on_raise = staticmethod(_geometry_raise_clause)
+
+
+from contracts.C01_decor import sizing_call_real, _has  # noqa: E402
+from contracts.C01_packs import pile_sizing  # noqa: E402
+from contracts.C09_pile import pile_geo_requires, pile_rows  # noqa: E402
+from contracts.C19_containers import pile_size_ok  # noqa: E402
+from urwid.widget.widget import WidgetError  # noqa: E402
+
+ANYSIZE = Union(Tup(Int, Int), Tup(Int), Tup())
+
+
+def natural_size(old, focus):
+    """(width, height, geometry) of a Pile at its natural size, as functions of the Pile's state: the value
+    get_rows_sizes(()) returns (a deterministic function) with its ghost width -- only meaningful where that call returns."""
+    G = pile_grs_fixed.spec_value(old, size=(), focus=focus)
+    g = cur().ghost["pf_geo"]
+    return g.mw, psum_of(G[1], n_items(old)), g
+
+
+@contract(PI + "Pile.pack", property="C01", inline=PINL + ("urwid/widget/widget.py:Widget.pack",), replayable=False, setup=_setup_child,
+          call_real=sizing_call_real, contract_overrides={GRS_KEY: pile_grs_fixed})
+class pile_pack:
+    """Box size: as given.  Flow size: (maxcol, own rows) for a Pile that reports FLOW, WidgetError otherwise.  No size:
+    the natural size -- as wide as the widest item, as tall as all items together; PileError only for a Pile that does not
+    report FIXED."""
+
+    self_shape = PILE
+    params = dict(size=ANYSIZE, focus=Bool)
+    result = Tup(Int, Int)
+    raises = (WidgetError, PileError)
+
+    def requires(s, a):
+        if len(a.size) == 1:
+            return pile_geo_requires(s, a.size)  # (the flow case goes through Pile.rows: its precondition)
+        return both(pile_wf(s), pile_size_ok(a.size))
+
+    def ensures(old, s, a, result):
+        n = n_items(old)
+        if len(a.size) == 2:
+            yield "box-size-as-given", both(result[0] == a.size[0], result[1] == a.size[1])
+        elif len(a.size) == 1:
+            yield "flow-is-maxcol-and-own-rows", both(result[0] == a.size[0], result[1] == pile_rows.spec_value(old, size=a.size, focus=a.focus))
+            yield "flow-only-for-a-flow-pile", _has(pile_sizing.spec_value(old), FLOW)
+        else:
+            mw, total, g = natural_size(old, a.focus)
+            pile_at(g.kw, *cur().ghost.get("extreme_witnesses", []))
+            V.instantiate(g.kw)
+            yield "fixed-width-is-that-of-the-widest-item", result[0] == mw
+            yield "fixed-height-is-the-sum-of-the-items-heights", result[1] == total
+        yield "frame", both(s._contents._focus == old._contents._focus, n_items(s) == n)
+
+    def on_raise(old, s, a, exc):
+        if exc.cls is PileError:
+            yield "pile-error-only-for-the-natural-size-of-a-pile-that-does-not-report-fixed", both(len(a.size) == 0, neg(pile_reports_fixed(old)))
+        else:
+            yield "widget-error-only-for-a-flow-size-of-a-pile-that-does-not-report-flow", both(len(a.size) == 1, neg(_has(pile_sizing.spec_value(old), FLOW)))
+
+
+# FAILS-ON-TREE (obligation C01/Pile.pack/raises/ValueError@builtin): Pile([]).pack(()) raises ValueError('max() iterable argument
+# is empty') -- sizing() == {box, flow}: the natural size is not reported, but the error is not the documented one
+# (Pile([]).render(()) returns an empty canvas).  Every counterexample has no items: `a.g_n_items == 0`.
+
+
+def _render_fixed_loop(v):
+    """The canvases collected so far are as wide as the pile and have the rows of the items seen so far (an item
+    without rows is skipped)."""
+    st = cur()
+    i = v.i_
+    H = v.heights
+    cl = v.combinelist.seq
+    m = Q.seq_len(cl)
+    g = st.ghost["pf_geo"]
+    pile_at(i - 1, i, g.kw, *st.ghost.get("extreme_witnesses", []))
+    V.instantiate(g.kw)
+    k = V.arbitrary("CanvasCombine.k")
+    yield "pile-width", implies(n_items(v.self) > 0, v.maxcol == g.mw)
+    yield "no-more-canvases-than-children-seen", both(0 <= m, m <= i)
+    yield "rows-so-far", psum_of(cl, m) == psum_of(H, i)
+    if not isinstance(cl, tuple):
+        yield "every-canvas-has-the-pile-width", implies(both(0 <= k, k < m), Q.seq_get(cl, k)[0].ncols == v.maxcol)
+        yield "the-first-canvas-has-the-pile-width", implies(0 < m, Q.seq_get(cl, 0)[0].ncols == v.maxcol)
+
+
+@contract(PI + "Pile.render", property="C01", alias="fixed", inline=PINL + ("urwid/widget/widget.py:Widget.selectable",), replayable=False, setup=_setup_child,
+          contract_overrides={GRS_KEY: pile_grs_fixed})
+class pile_render_fixed:
+    """render(()): exactly the size pack(()) reports -- as wide as the widest item, as tall as all items together
+    (statement: "fixed sizing yields exactly the size the widget's pack calculation reports"); PileError only for a Pile
+    that does not report FIXED.  (Sizes (maxcol,) / (maxcol, maxrow): contracts/C09_pile.py: pile_render.)"""
+
+    self_shape = PILE
+    qf_branching = True
+    params = dict(size=Tup(), focus=Bool)
+    result = CCANVAS
+    raises = (PileError,)
+
+    def requires(s, a):
+        return pile_wf(s)
+
+    def ensures(old, s, a, r):
+        mw, total, g = natural_size(old, a.focus)
+        n = n_items(old)
+        yield "width-is-what-pack-reports", r.ncols == ite(n > 0, mw, 0)
+        yield "height-is-what-pack-reports", r.nrows == total
+        yield "frame", both(s._contents._focus == old._contents._focus, n_items(s) == n)
+
+    def on_raise(old, s, a, exc):
+        yield "only-for-a-pile-that-does-not-report-fixed", neg(pile_reports_fixed(old))
+
+    loops = {0: Loop(invariant=_render_fixed_loop, shapes={"combinelist": COMBINE_LIST})}
